@@ -82,6 +82,12 @@ theorem bounds_chain (hf : ∀ i, 0 ≤ f i) (h1 : ∑ i, f i = 1) (hk : ∀ i, 
   ⟨by rw [← hs_zero]; exact hs_mono f k hf h1 hk le_rfl hs0,
    hs_mono f k hf h1 hk hs0 hst, hs_le_voigt f k hf h1 hk (hs0.trans hst)⟩
 
+/-- the Reuss estimate, hence every Hashin–Shtrikman form with `s ≥ 0`, is positive -/
+theorem hs_pos (hf : ∀ i, 0 ≤ f i) (h1 : ∑ i, f i = 1) (hk : ∀ i, 0 < k i) {s : 𝕜} (hs0 : 0 ≤ s) :
+    0 < hs f k s := by
+  have hr : 0 < reuss f k := inv_pos.2 (sum_div_pos f k hf h1 hk)
+  exact hr.trans_le (by rw [← hs_zero]; exact hs_mono f k hf h1 hk le_rfl hs0)
+
 /-- non-vacuity: two phases over ℚ -/
 example : ∃ (f k : Fin 2 → ℚ), (∀ i, 0 ≤ f i) ∧ ∑ i, f i = 1 ∧ (∀ i, 0 < k i) ∧ reuss f k < voigt f k :=
   ⟨![1/2, 1/2], ![1, 3], by intro i; fin_cases i <;> simp, by simp [Fin.sum_univ_two]; norm_num,
